@@ -78,6 +78,17 @@ def run(ctx, chk):
     chk.oblige("B16.1 save_rollback_state runs only after the loop (no rollback() after it)", not late,
                key="B16.1|save-after-loop", msg="rollback state is saved once, after the last applied record")
     no_save_after_refusal(ctx, chk, "B16.1c")
+    from props.c17 import raw_undo_validates_all
+    raw_undo_validates_all(ctx, chk, "B16.8")
+    save = M(r"vecdb::traits::writable::WritableVec::save_rollback_state", reach="must")
+    inn = O.seen_before(F, O.sites(F, save))
+    ek = O.exit_kinds(F)
+    early = [b for b, k in ek.items() if k == "ok" and not inn[b]]
+    chk.oblige("B16.1d rollback_before: every Ok return has saved the rollback state [%d ok exits]" % sum(
+        1 for k in ek.values() if k == "ok"), not early, key="B16.1d|rollback_before|ok-without-save",
+        msg="after a successful rollback_before the previous-state buffers must be re-based on the restored state, or the "
+            "next change record describes a truncation that never happened and a later rollback resurrects the abandoned "
+            "future")
     # B16.2
     S = O.body(SCF)
     wr = O.need_sites(S, M(r"std::fs::write"), 1)
@@ -121,6 +132,25 @@ def run(ctx, chk):
                    key="B16.2|retention-count-source",
                    msg="the number of records to prune must be computed over records older than the new stamp only "
                        "(abandoned-future records must not count against the retention window)")
+    # B16.9 the pruning loop removes oldest-first by NUMERIC stamp: the paths it removes are enumerated from a
+    # collection ordered by the parsed stamp (file names are decimal numbers: text order is not stamp order)
+    from order import iteration_order
+    own = [b for b in O.sites(S, M(r"std::fs::remove_file"))]
+    numeric = re.compile(r"Stamp|\b(u64|usize|u128|u32)\b")
+    for b in own:
+        orders = iteration_order(O, S, S.blocks[b]["term"]["args"][0])
+        sl = O.slice_back(S, S.blocks[b]["term"]["args"][0])
+        if not orders:
+            ok = any("btree::map::BTreeMap" in c for c in sl["calls"])
+        else:
+            ok = all((k in ("btree", "sorted-seq")) and numeric.search(ty) for k, ty in orders)
+        chk.oblige("B16.9 save_change_file: the records pruned for retention are enumerated in numeric stamp order %s"
+                   % (orders,), ok, key="B16.9|save_change_file|prune-order",
+                   msg="pruning `excess` records must drop the OLDEST stamps; an order that is not keyed by the parsed "
+                       "stamp (e.g. path text: '10' < '9') deletes a recent record and keeps an old one, so rollback "
+                       "past the missing stamp fails or restores the wrong state")
+    if not own:
+        raise AnchorMissing("save_change_file: pruning remove_file site not found")
     # DECODE subset
     subset = [b for b in c17.decoder_bodies(P, O) if "ChangeCursor" in b or "parse_change_data" in b
               or "parse_raw_change_data" in b or "::rollback::" in b or "::change::" in b]
